@@ -4,7 +4,7 @@ from vk.kernels import c08 as K
 
 
 def run(rep, tier, seed, args):
-    jobs = K.jobs(tier)
+    jobs = common.with_xsolver(K.jobs(tier), cap=2000 if tier == "quick" else 100000)
     maxlen = 3 if tier == 'quick' else 5
     rep.rule = ('one case = one path of the real TieredInterval/TieredTime operators for one shape combination '
                 '(pre_length, cutoff, len) with all tier values symbolic (unbounded ints >= 0); non-trivial = the path '
